@@ -86,6 +86,11 @@ class Ctx:
         self.kcount = 0
         self.vcount = 0
         self.this_type = this_type
+        self.scope = []      # lexically enclosing binders at the point of emission: (coq name, coq type)
+        self.prelude = []    # lambda-lifted loops, emitted before the function
+
+    def result_type(self):
+        return 'res (%s)' % self.rty if self.monadic else self.rty
 
     def fresh(self, p):
         self.vcount += 1
@@ -538,7 +543,11 @@ class Translator:
                     if t is None:
                         raise Unsupported('uninitialised ' + ty)
                 out_open.append((b, cname(nm), ty, t))
+            depth = len(cx.scope)
+            for b, nm, ty, t in out_open:
+                cx.scope.append((nm, ty))
             body = nxt()
+            del cx.scope[depth:]
             for b, nm, ty, t in reversed(out_open):
                 body = self.emit_binds(b, 'let %s : %s := %s in\n%s' % (nm, ty, t, body), cx)
             return body
@@ -596,9 +605,16 @@ class Translator:
                 params = ' '.join('(%s : %s)' % (cname(v), cx.types[v]) for v in av) or '(_ : unit)'
                 args = ' '.join(cname(v) for v in av) or 'tt'
                 jump = lambda: '%s %s' % (kn, args)
+                depth = len(cx.scope)
+                for v in av:
+                    cx.scope.append((cname(v), cx.types[v]))
                 kbody = nxt()
+                del cx.scope[depth:]
+                ktype = ' -> '.join([cx.types[v] for v in av] or ['unit']) + ' -> ' + cx.result_type()
+                cx.scope.append((kn, ktype))
                 tb = self.stmts([thn], cx, jump)
                 eb = self.stmts([els], cx, jump) if els else jump()
+                del cx.scope[depth:]
                 body = 'let %s := fun %s =>\n%s in\nif %s\nthen %s\nelse %s' % (kn, params, kbody, c, tb, eb)
             return self.emit_binds(b, body, cx)
         if k == 'SwitchStmt':
@@ -632,17 +648,33 @@ class Translator:
                 raise Unsupported('loop in pure function')
             av = sorted(v for v in self.assigned(body, set()) if v in cx.types)
             cx.kcount += 1
-            ln = 'loop%d' % cx.kcount
+            ln = '%s_loop%d' % (cx.coqname, cx.kcount)
+            loopvars = [cname(v) for v in av]
+            # lambda lifting: every enclosing binder that is not shadowed by a loop variable is passed along
+            captured = []
+            seen = set(loopvars)
+            for nm, ty in reversed(cx.scope):
+                if nm not in seen:
+                    seen.add(nm)
+                    captured.append((nm, ty))
+            captured.reverse()
+            cparams = ' '.join('(%s : %s)' % c for c in captured)
+            cargs = ' '.join(c[0] for c in captured)
             params = ' '.join('(%s : %s)' % (cname(v), cx.types[v]) for v in av)
-            args = ' '.join(cname(v) for v in av)
+            args = ' '.join(loopvars)
+            depth = len(cx.scope)
+            for v in av:
+                cx.scope.append((cname(v), cx.types[v]))
             b, c = self.expr(cnd, cx)
-            again = lambda: '%s fuel_ %s' % (ln, args)
+            again = lambda: '%s %s fuel_ %s' % (ln, cargs, args)
             body_t = self.stmts([body], cx, again)
             exit_t = nxt()
+            del cx.scope[depth:]
             inner = self.emit_binds(b, 'if %s\nthen %s\nelse %s' % (c, body_t, exit_t), cx)
-            return ('let %s := fix %s (fuel : nat) %s {struct fuel} : res (%s) :=\n'
-                    'match fuel with\n| O => Err "OutOfFuel"\n| S fuel_ =>\n%s\nend in\n%s LOOP_FUEL %s' % (
-                        ln, ln, params, cx.rty, inner, ln, args))
+            cx.prelude.append('Fixpoint %s %s (fuel : nat) %s {struct fuel} : %s :=\n'
+                              '  match fuel with\n  | O => Err "OutOfFuel"\n  | S fuel_ =>\n%s\n  end.\n' % (
+                                  ln, cparams, params, cx.result_type(), indent(inner)))
+            return '%s %s LOOP_FUEL %s' % (ln, cargs, args)
         if k == 'ForStmt':
             inner = s['inner']
             init, cond, inc, body = inner[0], inner[2], inner[3], inner[4]
@@ -696,9 +728,14 @@ class Translator:
         rty = self.ctype(rq)
         self.funcs[key] = {'coq': coqname, 'monadic': monadic, 'ret': rty, 'nparams': len(ps)}
         cx.rty = rty
+        cx.coqname = coqname
+        if record:
+            cx.scope.append(('this_', record))
+        for p in params:
+            cx.scope.append((cname(p['name']), cx.types[p['name']]))
         term = self.stmts(list(body[0].get('inner', [])), cx, None)
         full = 'res (%s)' % rty if monadic else rty
-        return 'Definition %s %s : %s :=\n%s.\n' % (coqname, ' '.join(ps), full, indent(term))
+        return '\n'.join(cx.prelude) + 'Definition %s %s : %s :=\n%s.\n' % (coqname, ' '.join(ps), full, indent(term))
 
 
 def indent(t):
